@@ -1067,12 +1067,28 @@ func (x *scalarExec) value(v ssa.Value, env map[ssa.Value]int64, prev *ssa.Basic
 			if b >= 0 && b < 63 {
 				return narrow(a<<uint(b), t.Type()), true
 			}
+			// a 64-bit unsigned word: the bit pattern is kept (two's complement); the bitwise operators and the
+			// comparison with zero that follow are exact on patterns
+			if bt, isB := t.Type().Underlying().(*types.Basic); isB && (bt.Kind() == types.Uint64 || bt.Kind() == types.Uint || bt.Kind() == types.Uintptr) {
+				if b == 63 {
+					return int64(uint64(a) << 63), true
+				}
+				if b >= 64 {
+					return 0, true
+				}
+			}
 		case token.SHR:
 			if b >= 0 && b < 63 {
 				return a >> uint(b), true
 			}
 			if b >= 63 && a >= 0 {
 				return 0, true // a non-negative value below 2^63 shifted right by 63 or more
+			}
+			if bt, isB := t.X.Type().Underlying().(*types.Basic); isB && a < 0 && b >= 0 && (bt.Kind() == types.Uint64 || bt.Kind() == types.Uint || bt.Kind() == types.Uintptr) {
+				if b >= 64 {
+					return 0, true
+				}
+				return int64(uint64(a) >> uint(b)), true // the pattern of a 64-bit unsigned word, shifted logically
 			}
 		}
 	case *ssa.Call:
